@@ -397,7 +397,8 @@ class tree:
             e.update(x.exact for x in l)
         del l
 
-        if restrict.negate:
+        negate = getattr(restrict, "negate", False)
+        if negate:
             cat_exact = pkg_exact = ()
 
         if cat_exact:
@@ -414,7 +415,7 @@ class tree:
                 cat_restrict.add(values.ContainmentMatch(frozenset(cat_exact)))
                 cats_iter = sorter(self._cat_filter(cat_restrict))
         elif cat_restrict:
-            cats_iter = self._cat_filter(cat_restrict, negate=restrict.negate)
+            cats_iter = self._cat_filter(cat_restrict, negate=negate)
         else:
             cats_iter = sorter(self.categories)
 
@@ -429,7 +430,7 @@ class tree:
                 pkg_restrict.add(values.ContainmentMatch(frozenset(pkg_exact)))
 
         if pkg_restrict:
-            return self._package_filter(cats_iter, pkg_restrict, negate=restrict.negate)
+            return self._package_filter(cats_iter, pkg_restrict, negate=negate)
         elif not cat_restrict:
             if sorter is iter and not cat_exact:
                 return self.versions
